@@ -349,13 +349,19 @@ def run_rows(case, ctx):
     mutation per leaf, one individual per leaf, a few populations and migrations."""
     k = case["k"]
     npop = 3
-    nodes = [[1, 0.0, u % npop, u, "n%d" % (u % 7)] for u in range(k)] + [[0, 1.0, -1, -1, ""]]
+
+    def fat(j, tag):
+        # a few long metadata cells (Base64 text of 76+ characters, tens of kilobytes) among the short ones
+        sizes = {1: 57, 2: 58, 3: 59, 5: 200, 8: 5000, 13: 70000}
+        return (tag * sizes[j])[: sizes[j]] if j in sizes else None
+
+    nodes = [[1, 0.0, u % npop, u, fat(u, "n\x00\xff") or "n%d" % (u % 7)] for u in range(k)] + [[0, 1.0, -1, -1, ""]]
     edges = [[0.0, float(k), k, u, ""] for u in range(k)]
-    sites = [[float(u), "ACGT"[u % 4], "s" if u % 5 == 0 else ""] for u in range(k)]
-    muts = [[u, u, "TGCA"[u % 4], -1, (0.5 if u % 2 == 0 else None) if False else None, "m" if u % 3 == 0 else ""]
+    sites = [[float(u), "ACGT"[u % 4], fat(u, "s\xfe") or ("s" if u % 5 == 0 else "")] for u in range(k)]
+    muts = [[u, u, "TGCA"[u % 4], -1, None, fat(u, "m\x01") or ("m" if u % 3 == 0 else "")] for u in range(k)]
+    inds = [[u % 2, [float(u % 3)] * (u % 3), ([u - 1] if u % 4 == 1 else []), fat(u, "i\x7f") or "i%d" % (u % 11)]
             for u in range(k)]
-    inds = [[u % 2, [float(u % 3)] * (u % 3), ([u - 1] if u % 4 == 1 else []), "i%d" % (u % 11)] for u in range(k)]
-    pops = [["p%d" % j] for j in range(npop)]
+    pops = [[fat(j + 1, "p\x80") or "p%d" % j] for j in range(npop)]
     migs = [[0.0, float(k), u, u % npop, (u + 1) % npop, 0.25 + (u % 2) * 0.25, ""] for u in range(0, k, max(1, k // 4200))]
     migs.sort(key=lambda r: r[5])
     spec = dict(L=float(k), nodes=nodes, edges=edges, sites=sites, mutations=muts, individuals=inds, populations=pops,
